@@ -1,1 +1,7 @@
 // hook file for ntp-proto/src/algorithm/kalman/mod.rs: declares the per-property harness modules
+#[cfg(any(verif_all, verif_c01))]
+#[path = "/verif/harness/ntp-proto/c01.rs"]
+mod c01;
+#[cfg(any(verif_all, verif_c02))]
+#[path = "/verif/harness/ntp-proto/c02.rs"]
+mod c02;
